@@ -1,1 +1,39 @@
-# generator of the sub-agent prompt used for seeded mutants (the agent gets only the property text and a scratch worktree)
+#!/usr/bin/env python3
+"""Writes the sub-agent prompt for a seeded-mutant request: seed_prompt.py <Cxx> <slot> ["avoid text"]
+The agent gets only the property text and a scratch worktree (nothing from /verif)."""
+import json, sys
+pid, slot = sys.argv[1], sys.argv[2]
+avoid = sys.argv[3] if len(sys.argv) > 3 else ""
+props = {json.loads(l)["id"]: json.loads(l) for l in open("/verif/properties.jsonl")}
+p = props[pid]
+extra = ""
+if avoid:
+    extra = ("\n\nIMPORTANT - be different: other engineers already produced the following changes for this property; do NOT reuse "
+             "the same function, mechanism or trigger. Pick a different place in the code and a different kind of manifestation:\n" + avoid + "\n")
+t = f"""You are helping to evaluate a verification tool for the Rust project bestinslot-xyz/brc20-programmable-module (a revm-based EVM execution engine for BRC20 indexers with a reorg-capable block-history cache over RocksDB and a JSON-RPC server).
+
+Your job: produce ONE realistic code change (a plausible bug a developer could introduce: a refactor gone wrong, an off-by-one, a dropped check, swapped arguments, a missing call, a reordered statement, ...) to the project that BREAKS the property below, while the project still compiles and its existing test suite still passes. The change must need something specific to manifest (a particular interleaving, a crash or fault at a particular point, a multi-step sequence of operations, an unusual input, or two cooperating sites that each look fine alone) — NOT something ordinary use would expose at once, and not something the existing tests catch.{extra}
+
+PROPERTY {p['id']}: {p['title']}
+Statement: {p['statement']}
+Quantifier: {p['quantifier']['text']}
+Why the tests cannot settle it: {p['why_tests_cant']}
+Anchors (where the mechanism lives): {json.dumps(p['anchors'])}
+
+Working area (use ONLY these paths; do not read or write anything under /verif or /repo):
+- git worktree of the project: /tmp/seed/{slot}/wt  (edit files here; do not commit)
+- cargo target dir to use: /tmp/seed/{slot}/target  (always pass CARGO_TARGET_DIR=/tmp/seed/{slot}/target; builds are offline: use `cargo ... --offline`)
+- output directory: /tmp/seed/{slot}/out
+
+How to build/test (offline sandbox, no network):
+  cd /tmp/seed/{slot}/wt && CARGO_TARGET_DIR=/tmp/seed/{slot}/target cargo test --offline --workspace --no-fail-fast 2>&1 | grep -E '^test result|FAILED|panicked'
+The baseline has exactly two expected failures that need a Bitcoin node (test_btc_rpc_precompiles_mainnet, test_btc_rpc_precompiles_signet in tests/precompiles.rs); everything else passes (the full run takes a few minutes; the lib unit tests alone: `cargo test --offline --lib`).
+
+Deliverables, all written to /tmp/seed/{slot}/out/ :
+1. patch.diff  — `git -C /tmp/seed/{slot}/wt diff` of your change to the project sources ONLY (src/**); keep it small and realistic; it must apply with `git apply` to a clean checkout.
+2. a demonstration that FAILS with the change and PASSES without it: preferably an in-crate test module file demo.rs (a `#[cfg(test)] mod demo;` style file, to be dropped at src/demo.rs and registered with one line in src/lib.rs — tell me the exact line and any visibility tweak needed) or an integration test file named demo_<something>.rs for tests/; it may use threads, several engine calls, reorgs, commits, reopen of the database directory, etc. It must not need network access.
+3. notes.md — which clause of the property the change breaks, what exactly is needed for it to manifest, the exact commands you ran and their observed results (a) without the change: existing tests pass + demo passes; (b) with the change: existing tests still pass + demo fails.
+
+Rules: do not modify or delete existing tests; do not touch files outside /tmp/seed/{slot}; do not use the network; do not look at /verif. Before finishing, make sure patch.diff contains only the bug (not the demo), and leave the worktree with the patch applied. Be economical: one good mutant is enough."""
+open(f"/tmp/seed/{slot}/prompt.txt", "w").write(t)
+print("prompt for", pid, "->", slot)
